@@ -207,3 +207,49 @@ def structural():
         "text": "the dispatcher keeps no state besides the registration table and the cache of ordered views",
         "status": "proved" if not extra else "failed", "note": ", ".join("self." + a for a in extra[:6]),
     }]
+
+# ---------------------------------------------------------------- registration through the configuration
+# The configuration hands listeners to ITS dispatcher: the one that was installed (whatever it holds so far), a new one
+# only if there is none.  The application and its commands dispatch on config.dispatcher, so a listener that lands on
+# another dispatcher object is never called.
+M_ACFG = "clikit.api.config.application_config"
+R.shape("ApplicationConfig", _dispatcher="ref EventDispatcher?")
+AEL = M_ACFG + ":ApplicationConfig.add_event_listener"
+DISP = "self._dispatcher"
+c = R.contract(
+    AEL,
+    params={"event_name": "str", "listener": "fn", "priority": "int"},
+    returns="ref ApplicationConfig",
+    ensures=[
+        "result is self",
+        "self._dispatcher is not None",
+        "implies(old(self._dispatcher) is not None, self._dispatcher is old(self._dispatcher))",
+        "implies(old(self._dispatcher) is None, fresh(self._dispatcher))",
+        # ... and the listener is registered there (the clauses of add_listener, restated for the dispatcher of the config)
+        "event_name in self._dispatcher._listeners and priority in self._dispatcher._listeners[event_name]",
+        "event_name not in self._dispatcher._sorted",
+    ],
+    modifies=["self._dispatcher", "items(self._dispatcher._listeners)", "items(self._dispatcher._sorted)", "ANY._listeners", "ANY._sorted"],
+)
+c.defaults = {"priority": 0}
+c.no_frame = True
+SED = M_ACFG + ":ApplicationConfig.set_event_dispatcher"
+R.contract(SED, params={"dispatcher": "ref EventDispatcher"}, returns="ref ApplicationConfig",
+           ensures=["result is self", "self._dispatcher is dispatcher"], modifies=["self._dispatcher"])
+R.contract(M_ED + ":EventDispatcher.__init__", params={}, ensures=["len(self._listeners) == 0", "len(self._sorted) == 0"],
+           modifies=["self._listeners", "self._sorted"])
+TARGETS_CONFIG = [AEL, SED, M_ED + ":EventDispatcher.__init__"]
+
+# ---------------------------------------------------------------- what a listener may do to a pre-handle event
+# Marking the command as handled and setting the status are not stopping the propagation: the listeners behind the one that
+# handles the command are still called (C12: a dispatch stops after the first listener that STOPS PROPAGATION).
+M_PHE = "clikit.api.event.pre_handle_event"
+R.shape("PreHandleEvent", base="Event", _handled="bool", _status_code="int")
+R.contract(M_PHE + ":PreHandleEvent.handled", params={"handled": "bool"},
+           ensures=["self._handled == handled"], modifies=["self._handled"])
+R.contract(M_PHE + ":PreHandleEvent.set_status_code", params={"status_code": "int"},
+           ensures=["self._status_code == status_code"], modifies=["self._status_code"])
+R.contract("clikit.api.event.event:Event.stop_propagation", params={}, ensures=["self._propagation_stopped"],
+           modifies=["self._propagation_stopped"])
+TARGETS_EVENTS = [M_PHE + ":PreHandleEvent.handled", M_PHE + ":PreHandleEvent.set_status_code",
+                  "clikit.api.event.event:Event.stop_propagation"]
